@@ -163,11 +163,23 @@ def doc_choice(runner: Runner, i, d, t, union_by_recency=True):
 
 # ------------------------------------------------------------------ drivers
 
-def world_and_pool(t1_summary):
+def world_and_pool(t1_summary, _verdict=None):
     pool = L.Pool()
     pool.exact_route_cond = t1_summary["converters"]["exact_route_cond"]
     preds = L.user_predicates()
-    init_tbl = L.init_truth_tables(pool, t1_summary)
+    try:
+        init_tbl = L.init_truth_tables(pool, t1_summary)
+    except L.TableMismatch as e:
+        if _verdict is not None:
+            # the registrations the source makes (as the translator last recognised them, in source order) against what a fresh converter
+            # really holds: a registration that had no effect is a registration that does not "take effect immediately"
+            import collections as _c
+            src, real = _c.Counter(e.source_names), _c.Counter(e.real_names)
+            _verdict.violation("hook precedence differs from the documented rule: a fresh Converter() does not hold every registration its constructor makes",
+                               {"lane": "DISP", "direction": e.direction, "registered_by_the_source_in_order": e.source_names, "held_by_a_fresh_converter_in_order": e.real_names,
+                                "missing": sorted((src - real).elements()), "unexpected": sorted((real - src).elements()),
+                                "replay": "c = cattrs.Converter(); [p.__name__ for p, *_ in c._%s_func._function_dispatch._handler_pairs]" % e.direction})
+        raise
     return pool, preds, L.coq_world(pool, preds, init_tbl)
 
 
@@ -225,7 +237,7 @@ def probe_battery(rng, pool, n):
 
 def check_c07(v: Verdict, t1_summary, n_cases, max_ops):
     rng = random.Random(v.seed * 7919 + 7)
-    pool, preds, world_text = world_and_pool(t1_summary)
+    pool, preds, world_text = world_and_pool(t1_summary, v)
     cases = []
     hist = {"ops": 0, "reghook": 0, "regfunc": 0, "regfact": 0, "get": 0, "probes": 0, "nested": 0,
             "ans_user": 0, "ans_made": 0, "ans_builtin": 0, "ans_fallback": 0, "union_struct_cases": 0}
@@ -354,7 +366,7 @@ def check_c07(v: Verdict, t1_summary, n_cases, max_ops):
 
 def check_c08(v: Verdict, t1_summary, n_cases, max_ops):
     rng = random.Random(v.seed * 7919 + 8)
-    pool, preds, world_text = world_and_pool(t1_summary)
+    pool, preds, world_text = world_and_pool(t1_summary, v)
     cases = []
     hist = {"ops": 0, "registrations": 0, "warming_lookups": 0, "warming_calls": 0, "wrap_cases": 0, "battery_probes": 0,
             "nested_probes": 0, "f8_hits": 0}
@@ -475,7 +487,7 @@ def check_c08(v: Verdict, t1_summary, n_cases, max_ops):
 
 def check_c18(v: Verdict, t1_summary, n_cases, max_ops):
     rng = random.Random(v.seed * 7919 + 18)
-    pool, preds, world_text = world_and_pool(t1_summary)
+    pool, preds, world_text = world_and_pool(t1_summary, v)
     cases = []
     hist = {"cases": 0, "deepcopy": 0, "with_overrides": 0, "custom_fallback": 0, "union_struct_regs": 0,
             "battery_probes": 0, "divergent_regs": 0, "f5_fallback_hits": 0, "f5_union_hits": 0}
